@@ -3,7 +3,7 @@
 From Coq Require Import ZArith QArith Qreals List Reals Bool.
 From Coquelicot Require Import Complex.
 From PyqspV Require Import Base.Ops Model.LPolyM Model.LAlgM Model.QInst Model.Checkers
-  Theory.RingK Theory.LPolyT Theory.LAlgT Theory.CplxT Theory.RespT Theory.QC Theory.CertT Theory.C01T Theory.CornerT.
+  Theory.RingK Theory.LPolyT Theory.LAlgT Theory.CplxT Theory.RespT Theory.QC Theory.CertT Theory.C01T Theory.CornerT Theory.SymQspT.
 Import ListNotations.
 Open Scope R_scope.
 
@@ -31,3 +31,10 @@ Theorem C02_wx_z_is_hadamard_corner (K : CRing) (i h a s : K) cs l g :
                          (evx K (ksub a (kmul i s)) (kadd a (kmul i s)) (la_I g))).
 Proof. exact (fun ii hh => resp_wx_z_is_hadamard_corner K i h ii hh a s cs l g). Qed.
 Print Assumptions C02_wx_z_is_hadamard_corner.
+
+(* every <0|U(a)|0> has the parity of the number of signal operators, so a P with both parities
+   is the corner of no phase sequence: with f = P - corner, f_off = P_off and |f_off(a)| <= sup |f| *)
+Theorem C02_corner_has_definite_parity (K : CRing) (i a s : K) cs l :
+  m00 (Ux K i (kopp a) s cs l) = if Nat.even (length l) then m00 (Ux K i a s cs l) else kopp (m00 (Ux K i a s cs l)).
+Proof. exact (wx_response_parity K i a s cs l). Qed.
+Print Assumptions C02_corner_has_definite_parity.
